@@ -258,6 +258,8 @@ def main(argv=None):
     except (EngineError, SpecDrift) as ex:
         return undecided("spec error: %s" % ex)
     try:
+        for fn in spec.extra_checks:
+            fn(REPO)            # structural censuses (may raise SpecDrift)
         obls, engines = run_targets(spec)
         obls += lemma_obligations(spec)
     except SpecDrift as ex:
